@@ -59,7 +59,7 @@ Definition gstep (g : gstate) (ch : gchoice) : option gstate :=
     | CStep w' => Some (with_w g w')
     | CBlocked =>
       match prog (gw g) with
-      | CSleepUntil t :: _ => Some (with_w g (set_now (gw g) t))    (* time passes until the child wakes *)
+      | CSleepUntil t :: r => Some (with_w g (set_now (set_prog (gw g) r) t))    (* time passes; the child wakes *)
       | _ => None
       end
     | CDone => None
